@@ -286,13 +286,6 @@ def check_output_tables(out, S, label):
         with open(u) as f:
             rows = [l for l in f.read().split('\n') if l != ''][1:]
         yield 'one-unique-identifier-per-cluster', len(rows) == S['n_clusters'] and len(set(rows)) == len(rows) and all(r.strip() for r in rows), (len(rows), S['n_clusters'])
-    # exported assignment tables hold the source ids (values, whatever the storage dtype)
-    for attr, key in (('spikes.clusters', 'sc'), ('spikes.templates', 'st')):
-        p = find_out(out, attr, 'npy', label)
-        if p:
-            a = np.load(p)
-            yield '%s-file-holds-source-ids' % attr, a.reshape(-1).shape == (S['ns'],) and np.array_equal(a.reshape(-1).astype(np.int64), S[key]), a.reshape(-1).tolist()[:8]
-
 
 def check_source_frame(before, after, S):
     changed = [f for f in before if f != 'temp_wh.dat' and after.get(f) != before[f]]
@@ -699,7 +692,7 @@ def enumerate_cases(ctx):
         ctx.scope('convert (thorough): seeded random datasets, 2..40 spikes, 2..5 templates, 1..16 channels, random curation by '
                   'relabelling a random subset of spikes into existing or new ids, random optional files / label / unit factor / raw data')
         rs = np.random.RandomState(ctx.seed + 13)
-        for k in range(260):
+        for k in range(700):
             ns, nt, nc = int(rs.randint(2, 41)), int(rs.randint(2, 6)), int(rs.randint(1, 17))
             stx = spike_templates_for(ns, nt, int(rs.randint(0, nt)))
             nt = max(max(stx) + 1, 2)      # fewer spikes than templates: keep the highest template used
